@@ -804,7 +804,14 @@ func TestC18(t *testing.T) {
 		r.Count("requests.get.key", 1)
 
 		if one.Status == 200 {
-			if rows, err := decodeRows(one.Body); err == nil && len(rows) == 1 {
+			rows, err := decodeRows(one.Body)
+			if err != nil || one.Panic != "" {
+				// 200 with an empty or undecodable body (e.g. a stored value the JSON encoder refuses): the row cannot be
+				// read; reported as such at once, never retried
+				return nil, -200, one.Body
+			}
+
+			if len(rows) == 1 {
 				return rows[0], 200, one.Body
 			}
 
@@ -933,6 +940,8 @@ func TestC18(t *testing.T) {
 	}
 
 	// unreadable: accepted on write, the read of that row fails afterwards
+	unreadableRows := 0
+
 	unreadable := func(row *c18Row, status int, body []byte) {
 		blamed := false
 
@@ -945,6 +954,34 @@ func TestC18(t *testing.T) {
 					Case: map[string]any{"type": ty, "lit": w.Lit, "variant": row.Variant}})
 			}
 		}
+
+		if !blamed && unreadableRows < 25 {
+			// no column named (an empty body, for instance): read each column of the row alone
+			for _, ty := range c18Types {
+				w, ok := row.Vals["c_"+ty]
+				if !ok {
+					continue
+				}
+
+				one := e.Do("admin", "GET", rowsPath(tableOf(row))+q("filter", fmt.Sprintf("EQ(k,%d)", row.K), "columns", "c_"+ty), nil)
+				r.Count("requests.get.column", 1)
+
+				if _, err := decodeRows(one.Body); one.Status != 200 || err != nil || one.Panic != "" {
+					blamed = true
+
+					what := fmt.Sprintf("status %d, body of %d bytes", one.Status, len(one.Body))
+					if err != nil {
+						what += ", " + err.Error()
+					}
+
+					r.Eval("unreadable|"+ty+"|"+w.Lit, true)
+					r.Violate(vh.Violation{Key: vkey(ty, row.Variant, w, "unreadable"), Desc: fmt.Sprintf("value %s accepted for a %s column through %s; reading that column of the row then fails: %s", vh.Trunc(w.Lit, 100), ty, row.Variant, what),
+						Case: map[string]any{"type": ty, "lit": w.Lit, "variant": row.Variant}})
+				}
+			}
+		}
+
+		unreadableRows++
 
 		if !blamed {
 			r.Violate(vh.Violation{Key: "unreadable:row:" + fam(row.Variant), Desc: fmt.Sprintf("row accepted through %s cannot be read: %d %s", row.Variant, status, vh.Trunc(msgOf(body), 300)),
@@ -1073,6 +1110,14 @@ func TestC18(t *testing.T) {
 	}
 
 	for rowsDone < nRows {
+		if unreadableRows > 150 {
+			// enough witnesses: every further batch would be read row by row; say so and stop instead of running into the watchdog
+			r.Note(fmt.Sprintf("main stream stopped after %d rows: %d accepted rows could not be read back", rowsDone, unreadableRows))
+			r.Count("stream.stopped-early", 1)
+
+			break
+		}
+
 		var rowsB []*c18Row
 
 		first := nextK
@@ -1198,6 +1243,152 @@ func TestC18(t *testing.T) {
 			judge(row, gr, present)
 			rowsDone++
 		}
+	}
+
+	// ---- schema changed under the row endpoints: a table that was already used through the row endpoints (its column types are
+	// then cached by the server) is re-created or altered by an @sql BATCH in which the schema statement is not the last one;
+	// rows written and read right afterwards must follow the NEW column types
+	if shardI == 0 {
+		sqlBatch := func(stmts ...string) srvfix.Response {
+			b, _ := json.Marshal(stmts)
+
+			return e.Do("admin", "POST", "/dsns/d_open/tables/@sql", b)
+		}
+
+		textValues := []string{"00123", "0x1F", "1e3", " 7 ", "-0", "1.50", "9007199254740993", "true"}
+
+		expectText := func(scenario, table, how string, k int64, col, want string) {
+			r.Eval("schema|"+scenario+"|"+how+"|"+want, true)
+			r.Count("schema-change.values", 1)
+
+			gr, st, body := readKey(table, k)
+			if st != 200 || gr == nil {
+				r.Violate(vh.Violation{Key: "schema-change:" + scenario + ":unreadable", Desc: fmt.Sprintf("after the schema change, row k=%d of %s (%s=%q written through %s) cannot be read: %d %s", k, table, col, want, how, st, vh.Trunc(msgOf(body), 200)),
+					Case: map[string]any{"type": "string", "lit": strconv.Quote(want), "variant": "put"}})
+
+				return
+			}
+
+			if got, isStr := gr[col].(string); !isStr || got != want {
+				r.Violate(vh.Violation{Key: "schema-change:" + scenario + ":roundtrip", Desc: fmt.Sprintf("column %s of %s is TEXT since the schema change; %q written through %s is read back as %v (the column's previous type is still applied)", col, table, want, how, gr[col]),
+					Case: map[string]any{"type": "string", "lit": strconv.Quote(want), "variant": "put"}, Expected: want, Observed: fmt.Sprintf("%v", gr[col])})
+			}
+		}
+
+		use := func(table string) {
+			// use the table through every row endpoint, so that whatever the server caches about it is cached
+			p := rowsPath(table)
+			_ = e.Do("admin", "PUT", p, []byte(`{"k":1,"sku":123,"qty":5}`))
+			_ = e.Do("admin", "GET", p+q("filter", "EQ(k,1)"), nil)
+			_ = e.Do("admin", "GET", p+q("filter", "EQ(k,1)", "abstract", "true"), nil)
+			_ = e.Do("admin", "PATCH", p+q("filter", "EQ(k,1)"), []byte(`{"qty":6}`))
+			_ = e.Do("admin", "POST", "/dsns/d_open/tables/@transaction", []byte(`[{"operation":"insert","table":"`+table+`","data":{"k":2,"sku":124,"qty":1}}]`))
+			_ = e.Do("admin", "GET", "/dsns/d_open/tables/"+table, nil)
+		}
+
+		writeAll := func(scenario, table string) {
+			k := int64(100)
+
+			for _, v := range textValues {
+				lit, _ := json.Marshal(v)
+
+				k++
+				if resp := e.Do("admin", "PUT", rowsPath(table), []byte(fmt.Sprintf(`{"k":%d,"sku":%s,"qty":1}`, k, lit))); resp.Status >= 300 {
+					r.Violate(vh.Violation{Key: "schema-change:" + scenario + ":refused", Desc: fmt.Sprintf("sku is TEXT since the schema change, PUT of %q is refused: %d %s", v, resp.Status, vh.Trunc(msgOf(resp.Body), 200)),
+						Case: map[string]any{"type": "string", "lit": string(lit), "variant": "put"}})
+				} else {
+					expectText(scenario, table, "PUT", k, "sku", v)
+				}
+
+				k++
+				_ = e.Do("admin", "PUT", rowsPath(table), []byte(fmt.Sprintf(`{"k":%d,"sku":"base","qty":1}`, k)))
+
+				if resp := e.Do("admin", "PATCH", rowsPath(table)+q("filter", fmt.Sprintf("EQ(k,%d)", k)), []byte(fmt.Sprintf(`{"sku":%s}`, lit))); resp.Status < 300 {
+					expectText(scenario, table, "PATCH", k, "sku", v)
+				}
+
+				k++
+				if resp := e.Do("admin", "POST", "/dsns/d_open/tables/@transaction", []byte(fmt.Sprintf(`[{"operation":"insert","table":"%s","data":{"k":%d,"sku":%s,"qty":1}}]`, table, k, lit))); resp.Status < 300 {
+					expectText(scenario, table, "transaction insert", k, "sku", v)
+				}
+			}
+		}
+
+		intCols := []string{"sku", "qty"}
+
+		// (a) DROP + CREATE in one batch (the schema statements are followed by an INSERT)
+		mk2 := func(name string) {
+			cols := []map[string]any{{"name": "k", "type": "int"}}
+			for _, cn := range intCols {
+				cols = append(cols, map[string]any{"name": cn, "type": "int"})
+			}
+
+			cb, _ := json.Marshal(cols)
+			if resp := e.Do("admin", "PUT", "/dsns/d_open/tables/"+name, cb); resp.Status != 201 {
+				t.Fatalf("create %s: %d %s", name, resp.Status, resp.Body)
+			}
+		}
+
+		mk2("sc1")
+		use("sc1")
+
+		if resp := sqlBatch(`DROP TABLE sc1`, `CREATE TABLE sc1 (k INTEGER, sku TEXT, qty INTEGER, _row_id_ TEXT UNIQUE)`, `INSERT INTO sc1(k,sku,qty,_row_id_) VALUES(9,'0009',1,'r9')`); resp.Status != 200 {
+			t.Fatalf("@sql batch: %d %s", resp.Status, resp.Body)
+		}
+
+		expectText("drop-create", "sc1", "the batch's own INSERT", 9, "sku", "0009")
+		writeAll("drop-create", "sc1")
+
+		// (b) the same with the two schema statements only
+		mk2("sc2")
+		use("sc2")
+
+		if resp := sqlBatch(`DROP TABLE sc2`, `CREATE TABLE sc2 (k INTEGER, sku TEXT, qty INTEGER, _row_id_ TEXT UNIQUE)`); resp.Status != 200 {
+			t.Fatalf("@sql batch: %d %s", resp.Status, resp.Body)
+		}
+
+		writeAll("drop-create-last", "sc2")
+
+		// (c) ALTER followed by an INSERT: the new column must be usable at once
+		mk2("sc3")
+		use("sc3")
+
+		if resp := sqlBatch(`ALTER TABLE sc3 ADD COLUMN note TEXT`, `INSERT INTO sc3(k,sku,qty,note,_row_id_) VALUES(50,1,1,'from-sql','r50')`); resp.Status != 200 {
+			t.Fatalf("@sql batch: %d %s", resp.Status, resp.Body)
+		}
+
+		expectText("alter-insert", "sc3", "the batch's own INSERT", 50, "note", "from-sql")
+
+		for i, v := range textValues {
+			lit, _ := json.Marshal(v)
+			k := int64(200 + i)
+
+			if resp := e.Do("admin", "PUT", rowsPath("sc3"), []byte(fmt.Sprintf(`{"k":%d,"sku":1,"qty":1,"note":%s}`, k, lit))); resp.Status >= 300 {
+				r.Violate(vh.Violation{Key: "schema-change:alter-insert:refused", Desc: fmt.Sprintf("column note exists since the ALTER; PUT of a row that carries it is refused: %d %s", resp.Status, vh.Trunc(msgOf(resp.Body), 200)),
+					Case: map[string]any{"type": "string", "lit": string(lit), "variant": "put"}})
+			} else {
+				expectText("alter-insert", "sc3", "PUT", k, "note", v)
+			}
+		}
+
+		// (d) ALTER … RENAME COLUMN followed by an UPDATE
+		mk2("sc4")
+		use("sc4")
+
+		if resp := sqlBatch(`ALTER TABLE sc4 RENAME COLUMN sku TO code`, `UPDATE sc4 SET qty=7 WHERE k=1`); resp.Status != 200 {
+			t.Fatalf("@sql batch: %d %s", resp.Status, resp.Body)
+		}
+
+		if resp := e.Do("admin", "PUT", rowsPath("sc4"), []byte(`{"k":300,"code":77,"qty":1}`)); resp.Status >= 300 {
+			r.Violate(vh.Violation{Key: "schema-change:rename-update:refused", Desc: fmt.Sprintf("column sku is called code since the ALTER; PUT of a row with code is refused: %d %s", resp.Status, vh.Trunc(msgOf(resp.Body), 200)),
+				Case: map[string]any{"type": "int", "lit": "77", "variant": "put"}})
+		} else if gr, st, _ := readKey("sc4", 300); st != 200 || gr == nil || fmt.Sprint(gr["code"]) != "77" {
+			r.Violate(vh.Violation{Key: "schema-change:rename-update:roundtrip", Desc: fmt.Sprintf("row written with the renamed column reads back as %v (status %d)", gr, st),
+				Case: map[string]any{"type": "int", "lit": "77", "variant": "put"}})
+		}
+
+		r.Eval("schema|rename-update", true)
+		r.Count("schema-change.scenarios", 4)
 	}
 
 	// ---- directed probe: time-typed values through the @transaction insert task (one table per type,
